@@ -5,6 +5,7 @@ import (
 	"sync"
 
 	"github.com/elliotchance/orderedmap/v3"
+	"github.com/mitchellh/hashstructure/v2"
 	"gopkg.in/yaml.v3"
 
 	"github.com/go-task/task/v3/errors"
@@ -131,6 +132,18 @@ func (vars *Vars) Merge(other *Vars, include *Include) {
 		}
 		vars.om.Set(pair.Key, pair.Value)
 	}
+}
+
+// Hash makes the variables part of the hash of whatever contains them (the
+// key of a "run: when_changed" task). Without it hashstructure would see a
+// struct that has unexported fields only and every set of variables would
+// hash to the same value.
+func (vars *Vars) Hash() (uint64, error) {
+	entries := make(map[string]Var, vars.Len())
+	for name, v := range vars.All() {
+		entries[name] = v
+	}
+	return hashstructure.Hash(entries, hashstructure.FormatV2, nil)
 }
 
 func (vs *Vars) DeepCopy() *Vars {
